@@ -162,6 +162,8 @@ def native_cases():
 
 
 def run(ctx, out):
+    import families as _famni
+    out.evaluations += _famni.noninit_roundtrip_family(out, PROP)
     import pane
     from pane.errors import ConvertError
     out.rule = ('(a) types x values produced by conversion: convert(x, T) == x with the same runtime classes; (b) natively built '
